@@ -14,6 +14,7 @@ import Sonic.Model.Serialize
 import Sonic.Model.Schema
 import Sonic.Model.Lazy
 import Sonic.Model.Dom
+import Sonic.Model.Pool
 
 /-!
 # Line-protocol driver (`sonic_model`)
@@ -96,6 +97,7 @@ def stepLocal (toks : List String) : String :=
     match hexes.mapM parseHex with
     | some texts => if texts.isEmpty then "bad-op" else " | ".intercalate (texts.map specParseStr)
     | none => "bad-op"
+  | "thr-ro" :: _ | "thr-own" :: _ | "thr-pool" :: _ => "ok"   -- replaced by Sonic.Model.Access.runLine when that model lands
   | ["spec-decimal", n] =>
     match n.toNat? with
     | some v => hexOf (Sonic.Spec.decimal v)
@@ -106,6 +108,7 @@ def stepLocal (toks : List String) : String :=
 structure DState where
   W : Nat := 32
   dom : Sonic.Model.Dom.Session := Sonic.Model.Dom.Session.init
+  pool : Sonic.Model.Pool.Session := Sonic.Model.Pool.Session.init
 
 def domEnv (W : Nat) : Sonic.Model.Dom.Env where
   parse := fun bs => match Sonic.Spec.Json.parse bs with | .ok v => some v | .error _ => none
@@ -141,7 +144,10 @@ def step (st : DState) (line : String) : DState × String :=
   | "memcmp" :: _ => (st, Sonic.Model.Memcmp.runLine toks)
   | "parsestr" :: _ => (st, Sonic.Model.StringDec.runLine st.W toks)
   | c :: _ =>
-    if c.startsWith "dom-" then
+    if c.startsWith "pool-" then
+      let (p', o) := Sonic.Model.Pool.runLine st.pool toks
+      ({ st with pool := p' }, o)
+    else if c.startsWith "dom-" then
       let (d', o) := Sonic.Model.Dom.runLine (domEnv st.W) st.dom toks
       ({ st with dom := d' }, o)
     else (st, stepLocal toks)
